@@ -664,6 +664,9 @@ pub(crate) struct Mp4TrackWriter {
 
 impl Mp4TrackWriter {
     pub(crate) fn new(track_id: u32, config: &TrackConfig) -> Result<Self> {
+        if config.timescale == 0 {
+            return Err(Error::InvalidData("track timescale must not be 0"));
+        }
         let mut trak = TrakBox::default();
         trak.tkhd.track_id = track_id;
         trak.mdia.mdhd.timescale = config.timescale;
